@@ -1,4 +1,9 @@
-(** Executable verdict for one observed case of C17: the implementation's output is judged
+(** The specification is about the location the output names, not its spelling: the output is cleaned
+    lexically (the model's [clean]) before [beneath] and before the comparison with Join(base, path) (which is
+    clean already, Proofs/UrlPathP.join_clean); a different spelling of the same location is only byte drift
+    ([model_eq]).  See Properties/C17.C17_judged_modulo_clean.
+
+    Executable verdict for one observed case of C17: the implementation's output is judged
     by the specification ([beneath] the cleaned base; Join for dot-free paths) and compared
     with the model. *)
 From Coq Require Import List NArith Bool.
@@ -9,8 +14,8 @@ Open Scope N_scope.
 Record verdict := { spec_contained : bool; spec_dot_free : bool; model_eq : bool }.
 
 Definition check_case (base p out : list N) : verdict :=
-  {| spec_contained := beneath (clean base) out;
-     spec_dot_free := if dot_freeb p then bytes_eqb out (join base p) else true;
+  {| spec_contained := beneath (clean base) (clean out);
+     spec_dot_free := if dot_freeb p then bytes_eqb (clean out) (join base p) else true;
      model_eq := bytes_eqb (resolve base p) out |}.
 
 Definition verdict_ok (v : verdict) : bool := spec_contained v && spec_dot_free v && model_eq v.
